@@ -172,7 +172,7 @@ CoveredFrom(a, e, arenasL, fuel) ==
   ELSE LET hits == {i \in 1..Len(arenasL) : LeA(ArenaRange(arenasL[i])[1], a) /\ LtA(a, ArenaRange(arenasL[i])[2])} IN
        IF hits = {} THEN FALSE ELSE CoveredFrom(ArenaRange(arenasL[CHOOSE i \in hits : TRUE])[2], e, arenasL, fuel - 1)
 InArenas(s, arenasL) == CoveredFrom(s.a, s.e, arenasL, Len(arenasL))
-IsTable(s) == oscfg.segmap_part > 0 /\ PagesOf(s) * 4096 = oscfg.segmap_part
+IsTable(s) == oscfg.segmap_part > 0 /\ oscfg.segmap_part % 4096 = 0 /\ PagesOf(s) = oscfg.segmap_part \div 4096     \* (no multiplication: mappings of 2 GiB and more would overflow TLC's integers)
 Refused(s) == UnitsCovering(s.a, s.e) \cap refusedU # {}
 OsQuiesce(ev, L) ==
   LET mp == MappedPages
